@@ -48,10 +48,22 @@ Section Own.
         (mkO (o_heap st) os' (o_released st ++ rel), rel)
     end.
 
-  (* put an object owning `owned` into slot s (dropping the previous content first) *)
+  (* put a NEW object owning `owned` into slot s.  As in Rust's `slot = new_value`, the new object exists
+     (and holds its strong references) before the previous content of the slot is dropped *)
   Definition put_slot (st : ostate) (s : nat) (owned : list nat) : ostate * list nat :=
-    let (st1, rel) := drop_slot st s in
-    (mkO (o_heap st1) (o_objs st1 ++ [(s, owned)]) (o_released st1), rel).
+    let old := match get_obj (o_objs st) s with Some l => l | None => [] end in
+    let os' := del_obj (o_objs st) s ++ [(s, owned)] in
+    let rel := newly_released os' (o_released st) old in
+    (mkO (o_heap st) os' (o_released st ++ rel), rel).
+
+  (* Graph::insert(node): the container in slot s additionally owns u (nothing is dropped) *)
+  Definition grow_slot (st : ostate) (s u : nat) : ostate :=
+    mkO (o_heap st)
+        (map (fun p => if Nat.eqb (fst p) s then (fst p, snd p ++ [u]) else p) (o_objs st))
+        (o_released st).
+  (* Graph::remove(key) handing the node out into slot t: the container in slot s stops owning u *)
+  Fixpoint remove_one (u : nat) (l : list nat) : list nat :=
+    match l with [] => [] | x :: r => if Nat.eqb x u then r else x :: remove_one u r end.
 
   Definition set_heap (st : ostate) (h : heap K V E) : ostate := mkO h (o_objs st) (o_released st).
 
